@@ -53,13 +53,15 @@ MC = "discovery/MCDiscovery.tla"
 BASE = "discovery/Discovery.tla"
 
 # Properties the model (= the code as it is) does not satisfy: each one has a witness configuration X_<key>.cfg whose
-# counterexample is forced on the real code. Reproduced => KNOWN-FINDING (signature X_discovery/<key>); "note" = by design.
+# counterexample is forced on the real code. Reproduced => KNOWN-FINDING (signature X_discovery/finding/<key>); "note" = by
+# design. "fixed": repaired in /repo; the witness comes from the model variant of the tree BEFORE the fix and must NOT be
+# reproducible any more (reproduced => the fix was reverted => violation).
 FINDINGS = {
     "hardLimit": ("note", "the set exceeds PeersLimit: workers of one round pass the size check concurrently (soft limit by design, "
                           "bound 2*limit-1)"),
-    "roundBelow": ("defect", "discover() starts a FindPeers round although the set is ABOVE its limit: `want := limit - size` is "
-                             "computed on unsigned integers and compared with 0, so every tick queries the backend while the set "
-                             "is overshot"),
+    "roundBelow": ("fixed", "discover() started a FindPeers round although the set was ABOVE its limit: `want := limit - size` was "
+                            "computed on unsigned integers and compared with 0, so every tick queried the backend while the set "
+                            "was overshot (repaired by /repo f5c221a; the model's switch SignedWant = FALSE is the tree before)"),
     "inSetConnected": ("defect", "a peer that is not connected stays in the set: its disconnect event was handled (Discard found it "
                                  "absent) between the successful Connect / Connectedness check and set.Add; nothing removes it later"),
     "inOrder": ("defect", "the callbacks report removed BEFORE added: Discard runs between set.Add and onUpdatedPeers(p, true) of "
@@ -122,7 +124,7 @@ def steps_of(hist):
 
 def beh(cfg, ident, hist, expect=""):
     c = cfg_consts(cfg)
-    return {"id": ident, "mode": "api" if c["DirectAPI"] else "disc", "limit": c["Limit"], "delay": c["Delay"],
+    return {"id": ident, "fixed": bool(expect) and FINDINGS[expect][0] == "fixed", "mode": "api" if c["DirectAPI"] else "disc", "limit": c["Limit"], "delay": c["Delay"],
             "peers": c["Peers"], "callers": c["Callers"], "atomic_peers": c["AtomicPeers"], "expect": expect,
             "steps": steps_of(hist)}
 
@@ -250,7 +252,7 @@ def run(ctx):
     jobs += exh_jobs
     # 2. coverage goals: behaviours that reach the rarely taken decision branches and, as goals x_<key>, the states in
     #    which a property that does not hold for the code as it is fails (GoalCover stops TLC once all were reached)
-    goal_cfgs = ("Goals_limit", "Goals_two", "Goals_one", "Goals_callers")
+    goal_cfgs = ("Goals_limit", "Goals_two", "Goals_one", "Goals_callers", "Goals_prefix")
     goal_jobs = {c: Job(MC, "discovery/%s.cfg" % c, must_pass=False, workers=2 if quick else 4, timeout=900) for c in goal_cfgs}
     jobs += list(goal_jobs.values())
     # 3. seeded random behaviours for the replay
@@ -326,23 +328,33 @@ def run(ctx):
 
     # 6. replay on the real code. A modelled (listed) failure is a known finding: matched in memory, nothing is written.
     for key, (kind, what) in FINDINGS.items():
-        ctx.known.append({"property": ctx.prop, "signature": "X_discovery/finding/" + key, "status": "known", "what": what})
+        if kind != "fixed":
+            ctx.known.append({"property": ctx.prop, "signature": "X_discovery/finding/" + key, "status": "known", "what": what})
     rep = ctx.go_driver("discovery", env={"VERIF_PLAN": plan_path}, timeout=1500)
     summ = rep.get("summary") or {}
     cnt = rep.get("counters") or {}
     wit = summ.get("witness") or {}
     for key in found:
+        kind, what = FINDINGS[key]
         verdicts = {b["id"]: wit.get(b["id"], "not run") for b in behs if b["expect"] == key}
+        if kind == "fixed":
+            if any(v == "reproduced" for v in verdicts.values()):
+                ctx.violation("X_discovery/fix-reverted/" + key, "%s -- the behaviour of the model variant WITHOUT the fix is followed by "
+                              "the real code and the property fails on it" % what)
+            elif any(v == "not run" for v in verdicts.values()):
+                ctx.inconclusive("witness %s (fixed): not run" % key)
+            else:
+                ctx.cover(fixed_findings_not_reproducible=1)
+            continue
         bad = {i: v for i, v in verdicts.items() if v != "reproduced"}
         if not bad:
-            kind, what = FINDINGS[key]
             ctx.violation("X_discovery/finding/" + key, "[%s] %s -- TLC behaviour of %d steps (goal x_%s of spec/discovery/Goals_*.cfg; standalone "
                           "counterexample: X_%s.cfg) forced on the real code" % (kind, what, found[key], key, key))
         else:
             ctx.inconclusive("witness %s: TLC's behaviour was not reproduced on the real code (%s)" % (key, bad))
     for s in (b for b in behs if b["expect"]):
         ctx.sample({"witness": s["expect"], "actions": [st["a"] for st in s["steps"]]}, limit=3)
-    if cnt.get("behaviours_replayed", 0) < len(behs):
+    if cnt.get("behaviours_replayed", 0) + cnt.get("behaviours_skipped", 0) < len(behs) or (cnt.get("behaviours_skipped") and not rep.get("violations")):
         ctx.inconclusive("driver replayed %s of %d behaviours" % (cnt.get("behaviours_replayed"), len(behs)))
     acts = summ.get("actions") or {}
     missing = sorted(a for a in ("WAdd", "WWake", "WCallback", "WProtect", "WDial", "WDialReturn", "WConnectedness", "DRecv",
